@@ -2,6 +2,7 @@ package eng
 
 import (
 	"fmt"
+	"os"
 	"time"
 	"sort"
 	"go/constant"
@@ -104,6 +105,24 @@ func (e *Engine) globalPtr(g *ssa.Global) PtrV {
 
 // ---- region execution ----
 
+// isExitBlock: the block only runs deferred calls and returns.
+func isExitBlock(b *ssa.BasicBlock) bool {
+	if len(b.Instrs) == 0 {
+		return false
+	}
+	if _, ok := b.Instrs[len(b.Instrs)-1].(*ssa.Return); !ok {
+		return false
+	}
+	for _, in := range b.Instrs[:len(b.Instrs)-1] {
+		switch in.(type) {
+		case *ssa.RunDefers, *ssa.UnOp, *ssa.DebugRef, *ssa.Store, *ssa.MakeInterface, *ssa.ChangeInterface:
+		default:
+			return false
+		}
+	}
+	return true
+}
+
 type regionCB struct {
 	onBack func(from int, s *State) // edge to the region's start block
 	onExit func(from, to int, s *State)
@@ -124,6 +143,28 @@ func (x *exec) runRegion(region map[int]bool, start int, st *State, cb regionCB,
 			continue
 		}
 		delete(contrib, b.Index)
+		if os.Getenv("GOVC_DBGSPLIT") != "" && len(ins) > 3 {
+			fmt.Printf("block %d %s: %d preds, exit=%v top=%v\n", b.Index, b.Comment, len(ins), isExitBlock(b), x.top)
+			for _, in := range b.Instrs {
+				fmt.Printf("   %T %s\n", in, in)
+			}
+		}
+		if len(ins) > 1 && x.top && x.contract != nil && x.contract.Has("splitreturn") && isExitBlock(b) && x.loops[b.Index] == nil {
+			// "splitreturn": the paths that reach a common return block are NOT
+			// merged: each gets its own (much smaller) postcondition obligations
+			for _, one := range ins {
+				if one.pc.IsFalse() {
+					continue
+				}
+				cur := one.clone()
+				for _, in := range b.Instrs {
+					if !x.step(cur, in) || cur.pc.IsFalse() {
+						break
+					}
+				}
+			}
+			continue
+		}
 		cur := ins[0]
 		for _, o := range ins[1:] {
 			cur = x.e.mergeStates(nil, cur, nil, o)
